@@ -33,6 +33,17 @@ struct Raw12 { int32_t x, y, z; };      var Raw12 = Cello(Raw12);
 struct Raw16 { unsigned char b[16]; };  var Raw16 = Cello(Raw16);
 struct Raw20 { unsigned char b[20]; };  var Raw20 = Cello(Raw20);
 struct Raw21 { unsigned char b[21]; };  var Raw21 = Cello(Raw21);
+/* larger than / around the 64- and 128-byte blocks a block-wise memcpy/memswap would use */
+struct Raw63  { unsigned char b[63]; };   var Raw63  = Cello(Raw63);
+struct Raw64  { unsigned char b[64]; };   var Raw64  = Cello(Raw64);
+struct Raw65  { unsigned char b[65]; };   var Raw65  = Cello(Raw65);
+struct Raw72  { unsigned char b[72]; };   var Raw72  = Cello(Raw72);
+struct Raw100 { unsigned char b[100]; };  var Raw100 = Cello(Raw100);
+struct Raw127 { unsigned char b[127]; };  var Raw127 = Cello(Raw127);
+struct Raw128 { unsigned char b[128]; };  var Raw128 = Cello(Raw128);
+struct Raw129 { unsigned char b[129]; };  var Raw129 = Cello(Raw129);
+struct Raw200 { unsigned char b[200]; };  var Raw200 = Cello(Raw200);
+struct Raw300 { unsigned char b[300]; };  var Raw300 = Cello(Raw300);
 
 static int vfg_large;
 
@@ -198,10 +209,12 @@ static void type_desc(int i, char* buf, size_t cap) { snprintf(buf, cap, "%s", t
 ** Raw12 is three int32).  Grid of a size: the bytes at 3 (large: up to 4) positions - always
 ** the first and the LAST byte, the first byte after the last whole 8-byte word (or the middle)
 ** - each from {00, 01, 80, FF}, all other bytes 0x55.
+** raw63, raw64, raw65, raw72, raw100, raw127, raw128, raw129, raw200, raw300: see raw_grid_big.
 */
-#define RAWMAX 24
+#define RAWMAX 304
+#define NRAWDOMS 20
 struct rawdom { const char* name; size_t size; var type; int n; unsigned char v[MAXN][RAWMAX]; };
-static struct rawdom rawdoms[10]; static int nrawdoms;
+static struct rawdom rawdoms[NRAWDOMS]; static int nrawdoms;
 static struct rawdom* RW;               /* the raw domain currently selected */
 
 static struct rawdom* raw_find(const char* name) {
@@ -231,11 +244,46 @@ static void raw_grid_one(const char* name, size_t size, var type) {
     r->n++;
   }
 }
+/* the byte every position of a big struct holds unless the grid varies it: position dependent
+** (period 61, so no two 64-byte blocks look alike) and below 0x80 */
+static unsigned char raw_big_filler(size_t k) { return (unsigned char)(0x20 + k % 61); }
+
+/*
+** Big sizes (63..300): varied positions are the first byte, the LAST byte, and around every
+** 64-byte boundary inside the struct the byte just before it and the byte just after it.
+** Grid (reduced, the product over up to 10 positions is too large): the base pattern; every
+** single position set to each of {00, 01, 80, FF}; large grid in addition: every pair of
+** neighbouring varied positions set to the four combinations of {00, FF}.
+*/
+static void raw_grid_big(const char* name, size_t size, var type) {
+  static const unsigned char vals[4] = { 0x00, 0x01, 0x80, 0xFF };
+  struct rawdom* r = &rawdoms[nrawdoms++];
+  r->name = name; r->size = size; r->type = type; r->n = 0;
+  size_t pos[16]; int np = 0;
+  pos[np++] = 0;
+  for (size_t b = 64; b <= size; b += 64) {
+    if (b - 1 > 0 && b - 1 < size - 1) pos[np++] = b - 1;
+    if (b < size - 1) pos[np++] = b;
+  }
+  pos[np++] = size - 1;
+  #define RAW_BASE(dst) do { for (size_t k = 0; k < RAWMAX; k++) (dst)[k] = k < size ? raw_big_filler(k) : 0x55; } while (0)
+  RAW_BASE(r->v[r->n]); r->n++;
+  for (int q = 0; q < np; q++) for (int x = 0; x < 4; x++) { RAW_BASE(r->v[r->n]); r->v[r->n][pos[q]] = vals[x]; r->n++; }
+  if (vfg_large) for (int q = 0; q + 1 < np; q++) for (int x = 0; x < 4; x++) {
+    RAW_BASE(r->v[r->n]); r->v[r->n][pos[q]] = (x & 2) ? 0xFF : 0x00; r->v[r->n][pos[q+1]] = (x & 1) ? 0xFF : 0x00; r->n++;
+  }
+  #undef RAW_BASE
+}
+
 static void raw_grid(void) {
   raw_grid_one("raw", 8, Raw8);
   raw_grid_one("raw1", 1, Raw1);   raw_grid_one("raw3", 3, Raw3);   raw_grid_one("raw4", 4, Raw4);
   raw_grid_one("raw7", 7, Raw7);   raw_grid_one("raw9", 9, Raw9);   raw_grid_one("raw12", 12, Raw12);
   raw_grid_one("raw16", 16, Raw16); raw_grid_one("raw20", 20, Raw20); raw_grid_one("raw21", 21, Raw21);
+  raw_grid_big("raw63", 63, Raw63);    raw_grid_big("raw64", 64, Raw64);    raw_grid_big("raw65", 65, Raw65);
+  raw_grid_big("raw72", 72, Raw72);    raw_grid_big("raw100", 100, Raw100); raw_grid_big("raw127", 127, Raw127);
+  raw_grid_big("raw128", 128, Raw128); raw_grid_big("raw129", 129, Raw129); raw_grid_big("raw200", 200, Raw200);
+  raw_grid_big("raw300", 300, Raw300);
   for (int q = 0; q < nrawdoms; q++) if (size(rawdoms[q].type) != rawdoms[q].size) {
     fprintf(stderr, "vf_cmp.h: struct %s has padding (size %zu, expected %zu)\n", rawdoms[q].name, size(rawdoms[q].type), rawdoms[q].size); _exit(2);
   }
@@ -256,7 +304,11 @@ static const char* raw_feat(int i, int j) {
 }
 static void raw_desc(int i, char* buf, size_t cap) {
   size_t o = 0;
-  for (size_t k = 0; k < RW->size && o + 3 < cap; k++) o += snprintf(buf + o, cap - o, "%02X", RW->v[i][k]);
+  if (RW->size <= 21) { for (size_t k = 0; k < RW->size && o + 3 < cap; k++) o += snprintf(buf + o, cap - o, "%02X", RW->v[i][k]); return; }
+  /* big struct: the positions that differ from the base pattern */
+  o += snprintf(buf + o, cap - o, "{");
+  for (size_t k = 0; k < RW->size && o + 10 < cap; k++) if (RW->v[i][k] != raw_big_filler(k)) o += snprintf(buf + o, cap - o, "%s%zu:%02X", o > 1 ? "," : "", k, RW->v[i][k]);
+  snprintf(buf + o, cap - o, "}");
 }
 /* a stack-class object of the selected raw type in caller storage (what $(T, ...) builds) */
 #define RAW_STACKBUF(name) char name[sizeof(struct Header) + RAWMAX + 8] __attribute__((aligned(16))) = {0}
@@ -268,6 +320,21 @@ static var raw_stack(char* buf, int i) {
 static int raw_stackcmp(int i, int j) {
   RAW_STACKBUF(ba); RAW_STACKBUF(bb);
   return cmp(raw_stack(ba, i), raw_stack(bb, j));
+}
+
+/* is domain `name` selected by the comma list `list`?  "all" = everything; aliases: rawall = every raw*
+** domain, rawbig = the raw domains of 63 bytes and more */
+static int vfg_dom_selected(const char* list, const char* name) {
+  if (!strcmp(list, "all")) return 1;
+  size_t l = strlen(name);
+  struct rawdom* r = raw_find(name);
+  for (const char* p = list; p && *p; ) {
+    if (!strncmp(p, name, l) && (p[l] == ',' || p[l] == 0)) return 1;
+    if (r && !strncmp(p, "rawall", 6) && (p[6] == ',' || p[6] == 0)) return 1;
+    if (r && r->size >= 63 && !strncmp(p, "rawbig", 6) && (p[6] == ',' || p[6] == 0)) return 1;
+    p = strchr(p, ','); if (p) p++;
+  }
+  return 0;
 }
 
 static void vfg_build(int large_) {
